@@ -7,6 +7,7 @@ set -u
 export GOFLAGS=-mod=mod GOPROXY=off GOSUMDB=off
 glob="${1:-*}"
 out=/verif/seeded/KILLMATRIX.md
+[ "$glob" = "*" ] || out=/verif/seeded/KILLMATRIX-partial.md   # a partial re-run does not overwrite the full matrix
 tmp=$(mktemp)
 echo "| seed | check | exit | rules |" > $tmp
 echo "|---|---|---|---|" >> $tmp
@@ -17,7 +18,7 @@ for d in /verif/seeded/$glob/; do
   git -C /repo worktree add -q --detach "$wt" HEAD || continue
   if ! git -C "$wt" apply "$d/patch.diff"; then echo "| $id | - | patch does not apply | |" >> $tmp; git -C /repo worktree remove --force "$wt"; continue; fi
   case "$id" in
-    benign-*) checks="C01 C02 C03 C04 C05 C06 C07 C08 C15 C17" ;;
+    benign-*|C07-j) checks="C01 C02 C03 C04 C05 C06 C07 C08 C15 C17" ;;  # must all be exit 0
     C01-d) checks="C03 C04" ;;
     *) checks="${id%%-*}" ;;
   esac
